@@ -7,22 +7,35 @@ import Uquic.Proofs.FramesCarries
 namespace Uquic.Proofs.Frames
 open Uquic.Spec.Framing Uquic.Model.UQuic.Frames
 
-/-- start and length of the slice bytes a QUICFrameCrypto{off,len} addresses -/
-def rstart (low off : Int) : Int := off - low
-def rlen (low : Int) (n : Nat) (off len : Int) : Int := if len = 0 then (n : Int) - (off - low) else len
+/-- start and length of the slice bytes a QUICFrameCrypto{off,len} addresses in an `n` byte slice:
+    `lengthOffset := min(offset-lowest, n)`; a Length of 0, or one reaching beyond the slice, means
+    "to the end of the slice" -/
+def rstart (low : Int) (n : Nat) (off : Int) : Int := min (off - low) (n : Int)
+def rlen (low : Int) (n : Nat) (off len : Int) : Int :=
+  if len = 0 ∨ len > (n : Int) - rstart low n off then (n : Int) - rstart low n off else len
 
-/-- the frame is inside the slice and its wire offset is representable without wrap-around -/
+/-- the entry has non-negative fields and its wire offset is representable without wrap-around —
+    nothing is asked about the slice -/
 def FrameOk (low : Int) (n base : Nat) : QFrame → Prop
   | .crypto off len =>
-    0 ≤ rstart low off ∧ 0 ≤ rlen low n off len ∧ rstart low off + rlen low n off len ≤ n ∧
-      0 ≤ off + (base : Int) ∧ off + (base : Int) ≤ maxVarInt8 ∧ (n : Int) ≤ maxVarInt8
+    low ≤ off ∧ 0 ≤ len ∧ 0 ≤ off + (base : Int) ∧ off + (base : Int) ≤ maxVarInt8 ∧ (n : Int) ≤ maxVarInt8
   | .padding l => 0 ≤ l
   | .ping => True
 
-/-- what the CRYPTO frame of a layout entry must look like on the wire -/
+theorem rstart_bounds {low off : Int} {n : Nat} (h : low ≤ off) : 0 ≤ rstart low n off ∧ rstart low n off ≤ n := by
+  unfold rstart; omega
+
+theorem rlen_bounds {low off len : Int} {n : Nat} (h : low ≤ off) (hl : 0 ≤ len) :
+    0 ≤ rlen low n off len ∧ rstart low n off + rlen low n off len ≤ n := by
+  have := rstart_bounds (n := n) h
+  unfold rlen
+  split <;> omega
+
+/-- what the CRYPTO frame of a layout entry looks like on the wire -/
 def cryptoSpec (low : Int) (data : List UInt8) (base : Nat) : QFrame → List (Nat × List UInt8)
   | .crypto off len =>
-    [((off + (base : Int)).toNat, (data.drop (rstart low off).toNat).take (rlen low data.length off len).toNat)]
+    [((off + (base : Int)).toNat,
+      (data.drop (rstart low data.length off).toNat).take (rlen low data.length off len).toNat)]
   | _ => []
 
 theorem buildOne_ok {low : Int} {data : List UInt8} {base : Nat} {f : QFrame}
@@ -41,29 +54,34 @@ theorem buildOne_ok {low : Int} {data : List UInt8} {base : Nat} {f : QFrame}
     · intro rest; exact readFrames_paddings _ _
     · simp [cryptoSpec, cryptoOf_replicate_padding]
   | crypto off len =>
-    simp only [FrameOk, rstart] at h
-    obtain ⟨h1, h2, h3, h4, h5, h6⟩ := h
+    simp only [FrameOk] at h
+    obtain ⟨h1, h2, h4, h5, h6⟩ := h
+    obtain ⟨hs0, hsn⟩ := rstart_bounds (n := data.length) h1
+    obtain ⟨hl0, hln⟩ := rlen_bounds (n := data.length) h1 h2
     have hw : (off + (base : Int)) % u64 = off + (base : Int) := by
       apply Int.emod_eq_of_lt h4
       have := maxVarInt8_eq; unfold u64; omega
     obtain ⟨a, ha⟩ := appendVarint_isSome (v := (off + (base : Int)).toNat) (by omega)
     have hl8 : (rlen low data.length off len).toNat ≤ maxVarInt8 := by omega
     obtain ⟨b, hb⟩ := appendVarint_isSome hl8
-    let d := (data.drop (off - low).toNat).take (rlen low data.length off len).toNat
+    let d := (data.drop (rstart low data.length off).toNat).take (rlen low data.length off len).toNat
     have hdl : d.length = (rlen low data.length off len).toNat := by
       simp only [d, List.length_take, List.length_drop]; omega
     refine ⟨[6] ++ a ++ b ++ d, [Frame.crypto (off + (base : Int)).toNat d], ?_, ?_, ?_⟩
     · simp only [buildOne, hw, ha]
-      have e : (if len = 0 then (data.length : Int) - (off - low) else len) = rlen low data.length off len := rfl
+      have e0 : min (off - low) (data.length : Int) = rstart low data.length off := rfl
+      rw [e0]
+      have e : (if len = 0 ∨ len > (data.length : Int) - rstart low data.length off
+          then (data.length : Int) - rstart low data.length off else len) = rlen low data.length off len := rfl
       rw [e, if_neg (by omega), hb]
       simp only []
       rw [if_neg (by omega)]
-      have : (rlen low data.length off len).toNat - (data.length - (off - low).toNat) = 0 := by omega
+      have : (rlen low data.length off len).toNat - (data.length - (rstart low data.length off).toNat) = 0 := by omega
       simp [this, d]
     · intro rest
       have := readFrames_crypto d rest ha (by rw [hdl]; exact hb)
       rw [this]; cases readFrames rest <;> simp
-    · simp [cryptoOf, cryptoSpec, rstart, d]
+    · simp [cryptoOf, cryptoSpec, d]
 
 theorem buildAll_ok {low : Int} {data : List UInt8} {base : Nat} : ∀ (fs : List QFrame),
     (∀ f ∈ fs, FrameOk low data.length base f) →
@@ -81,12 +99,31 @@ theorem buildAll_ok {low : Int} {data : List UInt8} {base : Nat} : ∀ (fs : Lis
     · rw [hr, hrp]; rfl
     · rw [cryptoOf_append, hc, hcp]; simp
 
-/-- the frames of a layout are in bounds and cover the slice -/
+/-- No zero-extension, for ANY entry: what a CRYPTO entry puts on the wire is a sub-slice of the
+    share — `ℓ` bytes starting at `s` with `s + ℓ ≤ n` — never more than the share holds -/
+theorem cryptoSpec_subslice {low : Int} {data : List UInt8} {base : Nat} {f : QFrame}
+    (h : FrameOk low data.length base f) :
+    ∀ c ∈ cryptoSpec low data base f, ∃ s l : Nat, s + l ≤ data.length ∧ c.2 = (data.drop s).take l ∧ c.2.length = l := by
+  intro c hc
+  cases f with
+  | ping => simp [cryptoSpec] at hc
+  | padding l => simp [cryptoSpec] at hc
+  | crypto off len =>
+    simp only [FrameOk] at h
+    obtain ⟨hs0, hsn⟩ := rstart_bounds (n := data.length) h.1
+    obtain ⟨hl0, hln⟩ := rlen_bounds (n := data.length) h.1 h.2.1
+    simp only [cryptoSpec, List.mem_singleton] at hc
+    subst hc
+    refine ⟨(rstart low data.length off).toNat, (rlen low data.length off len).toNat, by omega, rfl, ?_⟩
+    simp only [List.length_take, List.length_drop]; omega
+
+/-- the frames of a layout start inside the slice and cover it -/
 structure TilesAt (low : Int) (fs : List QFrame) (n base : Nat) : Prop where
   lowNonneg : 0 ≤ low
   frames : ∀ f ∈ fs, FrameOk low n base f
+  inSlice : ∀ off len, QFrame.crypto off len ∈ fs → off - low ≤ n
   cover : ∀ i : Nat, i < n → ∃ off len, QFrame.crypto off len ∈ fs ∧
-    rstart low off ≤ i ∧ (i : Int) < rstart low off + rlen low n off len
+    rstart low n off ≤ i ∧ (i : Int) < rstart low n off + rlen low n off len
 
 theorem buildAll_carries {low : Int} {data : List UInt8} {base : Nat} {fs : List QFrame}
     (h : TilesAt low fs data.length base) :
@@ -103,74 +140,62 @@ theorem buildAll_carries {low : Int} {data : List UInt8} {base : Nat} {fs : List
     | crypto off len =>
       simp only [cryptoSpec, List.mem_singleton] at hcf
       have ok := h.frames _ hf
-      simp only [FrameOk, rstart] at ok
-      obtain ⟨h1, h2, h3, h4, h5, h6⟩ := ok
+      simp only [FrameOk] at ok
+      obtain ⟨h1, h2, h4, h5, h6⟩ := ok
+      have hin := h.inSlice _ _ hf
+      have hst : rstart low data.length off = off - low := by unfold rstart; omega
+      obtain ⟨hl0, hln⟩ := rlen_bounds (n := data.length) h1 h2
       have hlow := h.lowNonneg
       subst hcf
-      simp only [rstart]
-      have hlen : ((data.drop (off - low).toNat).take (rlen low data.length off len).toNat).length
+      have hlen : ((data.drop (rstart low data.length off).toNat).take (rlen low data.length off len).toNat).length
           = (rlen low data.length off len).toNat := by
         simp only [List.length_take, List.length_drop]; omega
       refine ⟨?_, by omega, by rw [hlen]; omega⟩
       rw [sliceEq_iff, hlen]
-      have e : (off + (base : Int)).toNat - (base + low.toNat) = (off - low).toNat := by omega
+      have e : (off + (base : Int)).toNat - (base + low.toNat) = (rstart low data.length off).toNat := by omega
       rw [e]
       exact ⟨by omega, by omega, rfl⟩
   · intro i h1 h2
     obtain ⟨off, len, hm, h3, h4⟩ := h.cover (i - (base + low.toNat)) (by omega)
     have ok := h.frames _ hm
-    simp only [FrameOk, rstart] at ok
-    obtain ⟨o1, o2, o3, o4, o5, o6⟩ := ok
+    simp only [FrameOk] at ok
+    obtain ⟨o1, o2, o4, o5, o6⟩ := ok
+    have hin := h.inSlice _ _ hm
+    have hst : rstart low data.length off = off - low := by unfold rstart; omega
+    obtain ⟨hl0, hln⟩ := rlen_bounds (n := data.length) o1 o2
     have hlow := h.lowNonneg
-    simp only [rstart] at h3 h4
-    refine ⟨((off + (base : Int)).toNat, (data.drop (off - low).toNat).take (rlen low data.length off len).toNat), ?_, ?_, ?_⟩
-    · rw [hc]; exact List.mem_flatMap.mpr ⟨_, hm, by simp [cryptoSpec, rstart]⟩
+    refine ⟨((off + (base : Int)).toNat, (data.drop (rstart low data.length off).toNat).take (rlen low data.length off len).toNat), ?_, ?_, ?_⟩
+    · rw [hc]; exact List.mem_flatMap.mpr ⟨_, hm, by simp [cryptoSpec]⟩
     · simp only []; omega
     · simp only [List.length_take, List.length_drop]; omega
 
-/-! ### exact panic / zero-extension behaviour of one CRYPTO entry -/
+/-! ### exact panic condition of one CRYPTO entry -/
 
-/-- a CRYPTO entry makes `build` panic exactly when its wire offset or its length is not a varint,
-    its length is negative, or it starts beyond the slice -/
+/-- a CRYPTO entry makes `build` panic exactly when its wire offset is not a varint or its Length is
+    negative (for a slice below 2^62 bytes) — never because of what the slice holds -/
 theorem buildOne_crypto_none_iff (low : Int) (data : List UInt8) (base : Nat) (off len : Int)
-    (hlow : low ≤ off) :
+    (hlow : low ≤ off) (hn : (data.length : Int) ≤ maxVarInt8) :
     buildOne low data base (.crypto off len) = none ↔
-      (maxVarInt8 : Int) < (off + (base : Int)) % u64 ∨ rlen low data.length off len < 0 ∨
-        (maxVarInt8 : Int) < rlen low data.length off len ∨ (data.length : Int) < off - low := by
+      (maxVarInt8 : Int) < (off + (base : Int)) % u64 ∨ len < 0 := by
   have hpos : 0 ≤ (off + (base : Int)) % u64 := Int.emod_nonneg _ (by unfold u64; omega)
-  have e : (if len = 0 then (data.length : Int) - (off - low) else len) = rlen low data.length off len := rfl
-  simp only [buildOne, e]
+  obtain ⟨hs0, hsn⟩ := rstart_bounds (n := data.length) hlow
+  have e0 : min (off - low) (data.length : Int) = rstart low data.length off := rfl
+  have e : (if len = 0 ∨ len > (data.length : Int) - rstart low data.length off
+      then (data.length : Int) - rstart low data.length off else len) = rlen low data.length off len := rfl
+  simp only [buildOne, e0, e]
   by_cases hw : (maxVarInt8 : Int) < (off + (base : Int)) % u64
   · rw [appendVarint_none (by omega)]; simp [hw]
   · obtain ⟨a, ha⟩ := appendVarint_isSome (v := ((off + (base : Int)) % u64).toNat) (by omega)
     rw [ha]
-    by_cases hn : rlen low data.length off len < 0
-    · simp [hn]
-    · rw [if_neg hn]
-      by_cases hb : (maxVarInt8 : Int) < rlen low data.length off len
-      · rw [appendVarint_none (by omega)]; simp [hb]
-      · obtain ⟨b, hb'⟩ := appendVarint_isSome (v := (rlen low data.length off len).toNat) (by omega)
-        rw [hb']
-        simp only []
-        by_cases hs : (data.length : Int) < off - low
-        · rw [if_pos (Or.inr hs)]; simp [hs]
-        · rw [if_neg (by omega)]; simp [hw, hn, hb, hs]
-
-/-- a CRYPTO entry that reaches beyond the slice is ZERO-EXTENDED: the frame claims `len` bytes, only
-    the first `n - start` are ClientHello bytes, the rest are zeros -/
-theorem buildOne_crypto_zero_extends (low : Int) (data : List UInt8) (base : Nat) (off len : Int)
-    (a b : List UInt8) (hlow : low ≤ off) (hs : off - low ≤ data.length) (hlen : 0 < len)
-    (ha : appendVarint ((off + (base : Int)) % u64).toNat = some a) (hb : appendVarint len.toNat = some b)
-    (hbeyond : (data.length : Int) < off - low + len) :
-    buildOne low data base (.crypto off len) =
-      some ([6] ++ a ++ b ++ data.drop (off - low).toNat ++
-        List.replicate (len.toNat - (data.length - (off - low).toNat)) 0) := by
-  simp only [buildOne, ha]
-  rw [if_neg (by omega), if_neg (by omega), hb]
-  simp only []
-  rw [if_neg (by omega)]
-  have : List.take len.toNat (List.drop (off - low).toNat data) = List.drop (off - low).toNat data := by
-    apply List.take_of_length_le; simp only [List.length_drop]; omega
-  simp [this]
+    by_cases hneg : len < 0
+    · have : rlen low data.length off len < 0 := by unfold rlen; rw [if_neg (by omega)]; exact hneg
+      simp [this, hneg]
+    · obtain ⟨hl0, hln⟩ := rlen_bounds (n := data.length) hlow (by omega : 0 ≤ len)
+      rw [if_neg (by omega)]
+      obtain ⟨b, hb'⟩ := appendVarint_isSome (v := (rlen low data.length off len).toNat) (by omega)
+      rw [hb']
+      simp only []
+      rw [if_neg (by omega)]
+      simp [hw, hneg]
 
 end Uquic.Proofs.Frames
